@@ -305,11 +305,14 @@ def sub_results(P, R, prop, tier='quick'):
     import importlib
     from model import AnalysisError
     k = (id(P), prop)
+    if k in _FWD_CACHE and _FWD_CACHE[k][1] == 'in progress':
+        # a dependency cycle would silently truncate the forwarded obligations: make it loud
+        raise AnalysisError(f'forward cycle: the rules of {prop} are asked for while they are being computed (dependencies must stay acyclic)')
     if k not in _FWD_CACHE:
         mod = importlib.import_module(f'rules.{prop}')
         sub = type(R)(prop, 'quick')
         err = None
-        _FWD_CACHE[k] = (sub, None)          # recursion guard: a cycle sees the (still empty) results
+        _FWD_CACHE[k] = (sub, 'in progress')          # recursion guard (see above)
         try:
             mod.run(P, sub, 'quick')
             sub.raise_deferred()
